@@ -10,7 +10,7 @@ import random
 
 from ..core import new_result, violation, Log, hx, unhx, digest
 from ..stream import SimStream, SimHang, gen_schedule, simpler_schedules, temp_seam
-from ..bodyreq import body_request
+from ..bodyreq import body_request, direct_api
 from .. import gen_chunked as gc
 from .. import shrink
 from .c04 import gen_bytes
@@ -152,9 +152,9 @@ def _run_case(case):
     outcome = None      # 'body' | 'reject' | 'server-error' | 'hang'
     body = None
     detail = ''
-    if case['via'] == 'direct':
-        from ombott.request_pkg.body_mixin import _body_read
-        from ombott.request_pkg.errors import BodyParsingError
+    api = direct_api() if case['via'] == 'direct' else None
+    if api is not None:
+        _body_read, BodyParsingError = api
         stream = SimStream(wire, case['sched'])
         with temp_seam(case['temp']):
             try:
